@@ -937,7 +937,60 @@ def rule_group_tables(ctx):
                   "for TLS 1.3 only validate, and every server then refuses the ClientHello" % (name, gn[name]), floc)
 
 
+def rule_point_format(ctx):
+    """POINT-FORMAT: the EC point format an endpoint uses (or accepts) when both hellos carry
+    ec_point_formats comes from BOTH lists: every value a function derives from the two extensions'
+    `formats` is evaluated for lists that differ (condeval.ev, nothing is run) and must lie in the
+    intersection - otherwise one side encodes its share in a format the other did not list, and a
+    permitted combination of settings fails to connect."""
+    from ..condeval import ev, Unknown
+    from ..query import calls_in, call_name
+    R = "C19.POINT-FORMAT"
+    n_sites = 0
+    for fi in ctx.index.all_functions():
+        ext = {}       # local -> "c" / "s"
+        for n in own_nodes(fi.node):
+            if isinstance(n, ast.Assign) and len(n.targets) == 1 and isinstance(n.targets[0], ast.Name) \
+                    and isinstance(n.value, ast.Call) and call_name(n.value) == "getExtension" and n.value.args \
+                    and attr_chain(n.value.args[0]) == "ExtensionType.ec_point_formats":
+                src = norm(n.value.func)
+                side = "c" if "clientHello" in src or "client_hello" in src else \
+                    "s" if "serverHello" in src or "server_hello" in src else None
+                if side:
+                    ext[n.targets[0].id] = side
+        if set(ext.values()) != {"c", "s"}:
+            continue
+        for n in own_nodes(fi.node):
+            if not (isinstance(n, ast.Assign) and len(n.targets) == 1 and isinstance(n.targets[0], ast.Name)):
+                continue
+            used = {x.value.id for x in ast.walk(n.value) if isinstance(x, ast.Attribute) and x.attr == "formats"
+                    and isinstance(x.value, ast.Name) and x.value.id in ext}
+            if not used:
+                continue
+            n_sites += 1
+            bad = None
+            for A, B in (((0,), (1, 0)), ((1, 0), (0,)), ((0, 1), (1, 0)), ((2, 0), (1, 0))):
+                env = {"__index__": ctx.index}
+                for nm, side in ext.items():
+                    env[nm + ".formats"] = A if side == "c" else B
+                try:
+                    got = ev(n.value, env)
+                except (Unknown, TypeError, AttributeError, KeyError, IndexError) as e:
+                    raise AnalysisError("%s: cannot evaluate `%s` in %s: %s" % (R, norm(n), fi.qname, e))
+                vals = list(got) if isinstance(got, (tuple, list, set, frozenset)) else [got]
+                outside = [v for v in vals if v not in A or v not in B]
+                if outside or not vals:
+                    bad = "client lists %r, server lists %r: `%s` gives %r" % (A, B, norm(n.value), got)
+                    break
+            ctx.check(R, bad is None, fi.qname, n,
+                      "the point format taken from the two ec_point_formats extensions must be one both sides "
+                      "listed: %s" % bad, fi.loc(n), what="%s: `%s` within both lists" % (fi.short, norm(n.targets[0])))
+    if n_sites < 5:
+        raise AnalysisError("%s: only %d negotiation sites found (confirmed 5)" % (R, n_sites))
+
+
 RULES = [
+    ("C19.POINT-FORMAT", "quick", rule_point_format),
     ("C19.GROUP-TABLES", "quick", rule_group_tables),
     ("C19.RANGES", "quick", rule_ranges),
     ("C19.SELECT", "quick", rule_select),
